@@ -30,6 +30,7 @@ RULE = ('Reference texts of 0-8 lines built from templates (fixed words + '
         'the verdict differs from plain equality of the two texts, or some '
         'option excuses a pair, or exactly one unexcused pair; distinct by '
         'case hash.')
+RULE += ' ' + "Also: remove-substrings with edge white space ('# ', ' #', '--\\t') with and without stripping; ignore-patterns that are bare top-level alternations; preprocessors whose result is empty on one or both sides; histories on one comparison object (main options, 1-2 other ignore-pattern lists, main options again, every call judged); in lists of files the main actual file listed a second time against a byte copy of itself."
 ASSUMPTIONS = ['presence/absence of the final newline and one trailing blank '
                'line are not differences (deliberate in the code, statement '
                'silent)']
